@@ -9,6 +9,7 @@ from __future__ import annotations
 import numpy as np
 
 from mc.core import Report, viol, collect_samples
+from mc.histories import explore_getter_orders
 
 from molgri.space.fullgrid import FullGrid
 
@@ -47,6 +48,14 @@ def run_case(case):
     except Exception as e:
         return {"violations": [viol(f"C02|b={b}|o={o}|t={t}|cart={cart}|f={f}|raises", f"full grid raised "
                                     f"{type(e).__name__}: {str(e)[:120]}", case, observed=type(e).__name__)], "n": 0}
+    # the rotation factor itself must be the sign-minimised quaternion angle (independent of the package's folding)
+    if n_b > 1:
+        dots = np.clip(np.abs(quat @ quat.T), 0, 1)
+        ang = np.arccos(dots)
+        if np.abs(np.where(rA, rD - ang, 0)).max() > 1e-7:
+            i, j = np.unravel_index(np.argmax(np.abs(np.where(rA, rD - ang, 0))), rD.shape)
+            vs.append(viol(f"C02|b={b}|o={o}|t={t}|cart={cart}|f={f}|rotation_distance", f"rotation-grid distance of pair "
+                           f"({i},{j}) is not arccos|q_i.q_j|", case, expected=float(ang[i, j]), observed=float(rD[i, j])))
     open_cells = bool(cart and np.any(pV <= 0))
     pre = (f"C02|open_cell|o={o}|" if open_cells else "C02|") + f"b={b}|o={o}|t={t}|cart={cart}|f={f}"
     n = n_b * n_p
@@ -105,6 +114,33 @@ def run_case(case):
     return {"violations": vs, "n": n, "pairs": n * n, "open": open_cells}
 
 
+FG_GETTERS = {
+    "full_adjacency": lambda fg: fg.get_full_adjacency(), "full_borders": lambda fg: fg.get_full_borders(),
+    "full_distances": lambda fg: fg.get_full_distances(), "prefactors": lambda fg: fg.get_full_prefactors(),
+    "total_volumes": lambda fg: fg.get_total_volumes(),
+    "pos_borders": lambda fg: fg.get_position_grid().get_borders_of_position_grid(),
+    "pos_distances": lambda fg: fg.get_position_grid().get_distances_of_position_grid(),
+    "pos_volumes": lambda fg: fg.get_position_grid().get_all_position_volumes(),
+}
+import itertools as _it
+_CORE = ["full_adjacency", "full_borders", "full_distances", "prefactors"]
+ORDER_WORDS = [list(w) for w in _it.product(FG_GETTERS, repeat=2)] + [list(w) for w in _it.product(_CORE, repeat=3)]
+
+
+def order_case(case):
+    """getter words on ONE FullGrid instance: all pairs over 8 getters, all triples over the 4 matrix getters"""
+    b, o, t, cart, f = case["b"], case["o"], case["t"], case["cartesian"], case["f"]
+    words = ORDER_WORDS[case["lo"]:case["hi"]]
+    bad, nwords, calls = explore_getter_orders(lambda: FullGrid(b, o, t, factor=f, position_grid_cartesian=cart),
+                                               FG_GETTERS, words=words)
+    vs = []
+    for w, pos, g, exp, obs in bad[:3]:
+        vs.append(viol(f"C02|getter_order|b={b}|o={o}|t={t}|cart={cart}|word={'>'.join(w[:pos + 1])}", f"{g} after "
+                       f"{w[:pos]} on the same FullGrid differs from the first call on a fresh object", dict(case, word=w),
+                       exp, obs))
+    return {"violations": vs, "n": 0, "words": nwords, "calls": calls}
+
+
 def cases(tier):
     out = []
     if tier == "quick":
@@ -137,7 +173,12 @@ def run(ctx):
     rep = Report(PROPERTY, "exploration")
     cs = cases(ctx.tier)
     res = ctx.pmap(run_case, cs, chunksize=1, recheck=3)
-    for r in res:
+    ocs = []
+    for b, o, t, cart in (("cube4D_5", "ico_5", "[0.1,0.25,0.3]", False), ("randomQ_4", "cube3D_6", "[0.2,0.3]", True)):
+        for lo in range(0, len(ORDER_WORDS), 8):
+            ocs.append({"order": True, "b": b, "o": o, "t": t, "cartesian": cart, "f": 2, "lo": lo, "hi": lo + 8})
+    ores = ctx.pmap(order_case, ocs, chunksize=1, recheck=1)
+    for r in res + ores:
         rep.add_violations(r["violations"])
     rep.coverage = {
         "evaluations": sum(r.get("pairs", 0) for r in res),
@@ -146,6 +187,7 @@ def run(ctx):
                 "{shell, Cartesian} x factors {1, 2, 0.5}; every pair of cells compared with the Kronecker-sum composition "
                 "of the package's own factor matrices; evaluations = ordered pairs; distinct_nontrivial = grids with >= 8 cells",
         "samples": collect_samples(cs, 5), "grids": len(cs), "exhaustive": True,
+        "getter_order_words": sum(r["words"] for r in ores), "getter_order_calls": sum(r["calls"] for r in ores),
         "bound": {"n_b": "1,4..9" if ctx.tier == "quick" else "1,4..20", "n_o": "1..13" if ctx.tier == "quick" else "1..13,20,30"},
     }
     rep.assumptions = ["position-grid and rotation-grid getters are taken as ground truth for the factors (C03-C06)",
@@ -154,4 +196,6 @@ def run(ctx):
 
 
 def replay(case):
+    if case.get("order"):
+        return order_case(case)["violations"]
     return run_case(case)["violations"]
